@@ -111,8 +111,14 @@ def create_retry_strategy(
                 config.max_delay_seconds,
             )
         except OverflowError:
-            # a float rate overflows long before the cap applies (2.0 ** 1024): that is the cap
-            base_delay = config.max_delay_seconds
+            # a float rate overflows long before the cap applies (2.0 ** 1024): the product is beyond
+            # the cap then - unless the initial delay is zero (the product stays zero) or the rate
+            # is negative (the product does not grow towards the cap)
+            base_delay = (
+                config.max_delay_seconds
+                if config.initial_delay_seconds > 0 and config.backoff_rate > 0
+                else 0
+            )
         # Apply jitter to get final delay
         delay_with_jitter: float = config.jitter_strategy.apply_jitter(base_delay)
         # Round up and ensure minimum of 1 second
